@@ -158,6 +158,39 @@ def F37():
     except TypeError:
         pass
     return seen != [1, 2]
+def F38():
+    spec = model_matrix("cc(z, df=4) - 1", pd.DataFrame({"z": np.linspace(0.25, 9.5, 30)}), context={}).model_spec
+    as_float = spec.get_model_matrix(pd.DataFrame({"z": [12.0, 3.0, -4.0]}), context={}).to_numpy()
+    as_int = spec.get_model_matrix(pd.DataFrame({"z": [12, 3, -4]}), context={}).to_numpy()
+    return not np.allclose(as_float, as_int)
+def F39():
+    from formulaic.materializers import PandasMaterializer
+    d = pd.DataFrame({"x": [1.0, np.nan, 3, 4], "z": [1.0, 2, 3, 4], "A": list("xyzx")})
+    mat = PandasMaterializer(d)
+    mat.get_model_matrix("x + A", output="sparse")
+    try:
+        m = mat.get_model_matrix("x + z + A", output="pandas")
+    except Exception:
+        return True
+    return m.shape != (3, 4) or "object" in m.dtypes.astype(str).tolist()
+def F40():
+    clean = pd.DataFrame({"a": [1.0, 2.0, 3.0, 4.0]})
+    lbl = np.array(["u", "v", "u", "v"])
+    obj = np.array(["u", None, "u", "v"], dtype=object)
+    if exc(lambda: model_matrix("C(lbl)", clean, context={"lbl": lbl}, na_action="raise")) is not None:
+        return True
+    s = set()
+    m = model_matrix("C(obj) + a", clean, context={"obj": obj}, drop_rows=s)
+    return s != {1} or m.shape[0] != 3
+def F41():
+    from formulaic.transforms.contrasts import PolyContrasts
+    a = PolyContrasts(scores=np.array([1.0, 2.0, 4.0])).get_coding_matrix(["x", "y", "z"])
+    b = PolyContrasts(scores=[1.0, 2.0, 4.0]).get_coding_matrix(["x", "y", "z"])
+    return not np.allclose(np.asarray(a), np.asarray(b))
+def F42():
+    from formulaic.transforms import scale
+    x = np.array([20, 30, 40], dtype="uint8")
+    return not np.allclose(scale(x, center=False, _state={}), scale(x.astype(float), center=False, _state={}))
 
 ids = sys.argv[1:] or [f"F{i}" for i in range(1, 26)]
 for i in ids:
